@@ -68,7 +68,12 @@ func ciscoPlan(kind, prop string) RunFunc {
 			if len(o.Rejects) > 0 {
 				i := o.RejectAt[0]
 				rej := o.Rejects[0]
-				return fail(rejectKind(rej)+"|"+cmdKind(p.Script[i].Line), rej)
+				k := rejectKind(rej) + "|" + cmdKind(p.Script[i].Line)
+				if strings.Contains(rej, " / group-object ") {
+					// the object is nested in another object-group
+					k += "|nested-by-group-object"
+				}
+				return fail(k, rej)
 			}
 		case "C07":
 			if len(o.Rejects) > 0 {
@@ -83,7 +88,11 @@ func ciscoPlan(kind, prop string) RunFunc {
 					what = "deleted"
 				}
 				_, obj, _ := strings.Cut(o.Frame, what+": ")
-				return fail(firstWords(obj, 1)+"|"+what, o.Frame)
+				k := firstWords(obj, 1) + "|" + what
+				if f := strings.Fields(obj); len(f) >= 2 && f[0] == "og" && nestedByGroupObject(cs.A, f[1]) {
+					k += "|nested-by-group-object"
+				}
+				return fail(k, o.Frame)
 			}
 		case "C14":
 			if len(o.Rejects) > 0 {
@@ -432,4 +441,19 @@ func sortStrings(l []string) {
 			}
 		}
 	}
+}
+
+// nestedByGroupObject: some object-group of the device lists name as group-object.
+func nestedByGroupObject(c *cisco.Conf, name string) bool {
+	for _, o := range c.Objs {
+		if o.Opaque || !strings.HasPrefix(o.Head, "object-group ") {
+			continue
+		}
+		for _, s := range o.Subs {
+			if s == "group-object "+name {
+				return true
+			}
+		}
+	}
+	return false
 }
